@@ -2577,7 +2577,7 @@ def replay(ctx, rp):
 
 
 # ------------------------------------------------------------------------------------------------------
-# known findings: C19-molrecs-align-fixed-frame-early-return (open); closed: (C19-complex-scalar-mismatch, C19-complex-computed-imag-dropped, C19-npbool-leaf were repaired by
+# known findings: none open; closed: C19-molrecs-align-fixed-frame-early-return (8a7d57a), (C19-complex-scalar-mismatch, C19-complex-computed-imag-dropped, C19-npbool-leaf were repaired by
 # 4bd9561 and f568480; their failing inputs stay in corpus())
 
 def _known_align_early_return(f):
@@ -2585,7 +2585,7 @@ def _known_align_early_return(f):
     return bool(m) and m["fix"] in ("com", "orientation") and bool(m["change"]) and m["pert"] == 0 and str(f.get("observed")) == "True"
 
 
-KNOWN = {"C19-molrecs-align-fixed-frame-early-return": _known_align_early_return}
+KNOWN = {}   # C19-molrecs-align-fixed-frame-early-return was repaired in /repo by 8a7d57a (its failing input stays in the molrecs-align stream)
 
 TRUSTED = [
     "hand-written model coq/Model/Compare.v of testing.py (compare_values, compare, _compare_recursive, compare_recursive, "
